@@ -568,10 +568,13 @@ def c06_builder(chk, tier, explicit=None):
             if r.chance(1, 3):
                 ops.append(("env_clear",))
             for _ in range(1 + r.below(5)):
-                if r.chance(1, 2):
+                k = r.below(5)
+                if k < 2:
                     ops.append(("env_extend", [(r.choice(names), r.choice(vals)) for _ in range(1 + r.below(4))]))
-                else:
+                elif k < 4:
                     ops.append(("env", r.choice(names), r.choice(vals)))
+                else:
+                    ops.append(("env_remove", r.choice(names)))      # every entry of that name goes, wherever it stands
             progs.append({"id": "c06-b%d" % i, "shell": None, "ops": ops, "t1": r.choice(["join", "popen", "capture"]), "t2": "join"})
         # the identity options through the builder, also on a clone (a copy is an equivalent command)
         import os as _os
